@@ -17,7 +17,10 @@ clauses
                  unfuse(fa +- fb) == a +- b, vdot(fa, fb) == vdot(a, b), tensordot over fused legs == over originals,
                  trace over fused pairs == trace over originals, to_numpy(legs=union) / legs_union / _embed relations
   block          yastn.block vs the harness direct sum: norm, vdot, full contraction over blocked legs, sum then
-                 contraction, trace over a blocked pair; blocks of fused pieces and fusions of blocked legs
+                 contraction, trace over a blocked pair; blocks of fused pieces and fusions of blocked legs; SUM-NODE MISMATCH:
+                 sectors of the blocked leg removed after block() (explicit zero blocks + remove_zero_blocks, different sectors in
+                 the two operands) and the blocked leg then hard-fused with a neighbour -> history p(..s(..)..) whose direct-sum
+                 node differs between the operands while the constituent legs agree: vdot / tensordot / trace / round trip
   must-reject    different trees, hard vs meta, different order inside a group, different signature of an inner leg,
                  different inner dimension of a charge stored in both operands -> YastnError in + / vdot / tensordot / trace
 """
@@ -534,6 +537,9 @@ def case_pair(E):
     want = rng.choice(("equal", "overlapping", "overlapping", "overlapping", "disjoint", "disjoint"))
     Sa, Sb = sector_sets(rng, keys, want)
     sets = [Sa, Sb] + [set(k for k in keys if rng.random() < 0.6) for _ in range(nop - 2)]
+    if nop == 3 and rng.random() < 0.5:
+        sets[2] = set(Sa)           # first and last operand alike, the middle one different: the embedding decision must not be taken from the last pair
+        ctx.count("add3_last_like_first")
     hts = [D.gen_tensor(rng, E.nprng, E.sym, legs=legs, n=n, dtype=dt, density=1.0).with_present(S) for S in sets]
     a, b = hts[0], hts[1]
     rel = relation(a.blocks, b.blocks)
@@ -775,20 +781,93 @@ def case_trace(E):
 
 # ------------------------------------------------------------------ kind: block() vs harness direct sum
 
+def sum_node_charges(leg):
+    """Charges recorded at the first direct-sum node BELOW the root of a hard-fused leg (None if there is none)."""
+    hf = leg.hf
+    for j in range(1, len(hf.op)):
+        if hf.op[j] == "s":
+            return tuple(hf.t[j - 1])
+    return None
+
+
+def case_block_trace_fused(E):
+    """trace over two legs p(s(..)o) / p(os(..)): a blocked leg and its conjugate, each hard-fused with one of a conjugate pair of
+    common legs, after DIFFERENT sectors of the two blocked legs were removed (explicit zero blocks + remove_zero_blocks)."""
+    import yastn
+    ctx, rng = E.ctx, E.rng
+    npos = rng.randint(2, 3)
+    s0 = rng.choice((-1, 1))
+    L0 = [D.gen_leg(rng, E.sym, s=s0, nsec=(2, 3), dmax=2, box=E.box) if E.sym != "dense" else E.leg(s=s0, small=True) for _ in range(npos)]
+    c = E.leg(small=True)
+    nrest = rng.randint(0, 1)
+    rest = [E.leg(small=True) for _ in range(nrest)]
+    # piece legs: (b0, c, b1 = conj b0, conj c, rest)
+    n = G.zero(E.sym) if (nrest == 0 or rng.random() < 0.6) else D.gen_n(rng, E.sym, rest, "fit")
+    dt = rng.choice(("float64", "complex128"))
+    U = sorted({t for l in L0 for t in l.ts})
+    Z0 = set(rng.sample(U, rng.randint(1, len(U) - 1))) if len(U) > 1 else set()
+    Z1 = set(rng.sample(U, rng.randint(1, len(U) - 1))) if len(U) > 1 else set()
+    if Z1 == Z0 and len(U) > 1:
+        Z1 = set(U) - Z0
+    A = {}
+    for p in itertools.product(range(npos), range(npos)):
+        if p[0] != p[1] and rng.random() < 0.4:
+            continue
+        h = D.gen_tensor(rng, E.nprng, E.sym, legs=[L0[p[0]], c, L0[p[1]].conj(), c.conj()] + rest, n=n, dtype=dt, density=rng.choice((1.0, 1.0, 0.7)))
+        A[p] = h._new(blocks={k: (np.zeros_like(v) if (k[0] in Z0 or k[2] in Z1) else v) for k, v in h.blocks.items()})
+    E.operands = list(A.values())
+    inner = rng.choice(((0, 1), (1, 0)))                       # order inside both fused groups
+    g0, g1 = tuple((0, 1)[i] for i in inner), tuple((2, 3)[i] for i in inner)
+    trees = [g0, g1] + list(range(4, 4 + nrest))
+    rng.shuffle(trees)
+    E.info = {"sub": "trace-fused", "npos": npos, "trees": repr(trees), "zero_sectors_0": sorted(map(list, Z0)), "zero_sectors_1": sorted(map(list, Z1)),
+              "n": list(n)}
+    bA = yastn.block({p: E.real(h) for p, h in A.items()}, common_legs=(1, 3) + tuple(range(4, 4 + nrest)))
+    ctx.count("block_calls")
+    bA = bA.remove_zero_blocks()
+    f = apply_recipe(bA, trees, pick_route(rng, ("all-p", None), 1), rng)
+    i0, i1 = trees.index(g0), trees.index(g1)
+    if sum_node_charges(f.get_legs(i0)) != sum_node_charges(f.get_legs(i1)):
+        ctx.count("block_sum_node_sector_mismatch")
+    nA = float(np.sqrt(sum(fnorm(h.dense()) ** 2 for h in A.values())))
+    if not ctx.margin("norm", abs(float(f.norm()) - nA), 1e-12 * max(1.0, nA)):
+        ctx.violation("norm-changed:block", f"norm of the fused blocked tensor {float(f.norm())!r}, of the pieces {nA!r}", E.sample("block"))
+    if rng.random() < 0.5 and len(trees) > 1:
+        f, tq, _ = post_transpose(rng, f, trees)
+        i0, i1 = tq.index(g0), tq.index(g1)
+    t = yastn.trace(f, axes=(i0, i1) if rng.random() < 0.5 else (i1, i0))
+    et = sum(np.einsum("abab" + "c" * nrest + "->" + "c" * nrest, h.dense()) for p, h in A.items() if p[0] == p[1])
+    K = sum(l.dim for l in L0) * c.dim
+    check_unfused(E, "block-fused-trace", t, (np.asarray(et, dtype=dt), rest, n), tol=8 * EPS * (K + 2) * max(nA, 1e-300))
+    # the same trace over the unfused (blocked) legs must agree as well (differential, same tolerance)
+    t2 = yastn.trace(bA, axes=((0, 1), (2, 3)))
+    check_unfused(E, "block-trace", t2, (np.asarray(et, dtype=dt), rest, n), tol=8 * EPS * (K + 2) * max(nA, 1e-300))
+    for name in ("binary_ops", "op:block-fused-trace", "block_cases", "block_sub:trace-fused"):
+        ctx.count(name)
+    ctx.count("mismatched_sector_binary_ops")
+    E.done(nontrivial=any(h.blocks for h in A.values()), extra=("trace-fused",))
+
+
 def case_block(E):
     """Pieces over position legs L[n][p]; everything is compared through quantities in which the blocked index is summed."""
     import yastn
     ctx, rng = E.ctx, E.rng
-    sub = rng.choice(("plain", "plain", "fused-pieces", "fuse-blocked", "trace"))
+    sub = rng.choice(("plain", "plain", "fused-pieces", "fuse-blocked", "trace", "sum-mismatch", "sum-mismatch", "trace-fused"))
+    if sub == "trace-fused":
+        return case_block_trace_fused(E)
+    zsec = sub == "sum-mismatch"
     nb = 2 if sub == "trace" else rng.choice((1, 1, 2))
     nc = rng.randint(0, 2) if nb == 1 else rng.randint(0, 1)
     if sub == "fused-pieces" and nc == 0:
         nc = rng.randint(1, 2) if nb == 1 else 1
-    if sub == "fuse-blocked" and nb + nc < 2:
+    if sub in ("fuse-blocked", "sum-mismatch") and nb + nc < 2:
         nc = 1
     npos = [rng.randint(2, 3) for _ in range(nb)]
     sig = [rng.choice((-1, 1)) for _ in range(nb)]
     L = [[E.leg(s=sig[n_], small=True) for _ in range(npos[n_])] for n_ in range(nb)]
+    if zsec and E.sym != "dense":
+        # several sectors, few distinct charges: the positions of the first blocked leg share charges
+        L[0] = [D.gen_leg(rng, E.sym, s=sig[0], nsec=(2, 3), dmax=2, box=E.box) for _ in range(npos[0])]
     if sub == "trace":
         npos[1] = npos[0]
         L[1] = [l.conj() for l in L[0]]
@@ -832,8 +911,25 @@ def case_block(E):
     PA, PB, PC = positions(), positions(), positions()
     A, B, C = family(PA), family(PB), family(PC)
     prel = relation(PA, PB)
+    if zsec:
+        # sum-node mismatch: whole sectors of the first blocked leg are stored as explicit zero blocks in the pieces, different
+        # sectors in the two operands.  block() records them in the constituent legs; remove_zero_blocks() after block() removes
+        # them from the blocked leg itself, so after the hard fusion below the direct-sum node of one operand lacks sectors that
+        # the other one has although the constituent legs of both carry them.  The dense truth of the pieces simply holds zeros.
+        U = sorted({t for l in L[0] for t in l.ts})
+        ZA = set(rng.sample(U, rng.randint(1, len(U) - 1))) if len(U) > 1 else set()
+        ZB = set(rng.sample(U, rng.randint(1, len(U) - 1))) if len(U) > 1 else set()
+        if ZB == ZA and len(U) > 1:
+            ZB = set(U) - ZA if rng.random() < 0.5 else {t for t in U if t not in ZA or rng.random() < 0.5}
+        ZC = set(t for t in U if rng.random() < 0.3) if len(U) > 1 else set()
+
+        def zeroed(F, Z):
+            return {p: h._new(blocks={k: (np.zeros_like(v) if k[bpos[0]] in Z else v) for k, v in h.blocks.items()}) for p, h in F.items()}
+        A, B, C = zeroed(A, ZA), zeroed(B, ZB), zeroed(C, ZC)
     E.operands = list(A.values()) + list(B.values())
     E.info = {"sub": sub, "order": order, "npos": npos, "positions_a": [list(p) for p in PA], "positions_b": [list(p) for p in PB], "n": list(n)}
+    if zsec:
+        E.info.update(zero_sectors_a=sorted(map(list, ZA)), zero_sectors_b=sorted(map(list, ZB)))
 
     # optional fusion of the pieces before blocking (the fused group may contain blocked and common legs)
     trees = list(range(rank))
@@ -877,10 +973,22 @@ def case_block(E):
 
     bA, bB, bC = build(A, "A"), build(B, "B"), build(C, "C")
     cur = list(trees)
-    if sub == "fuse-blocked":
+    if zsec:
+        bA, bB, bC = bA.remove_zero_blocks(), bB.remove_zero_blocks(), bC.remove_zero_blocks()
+    if sub in ("fuse-blocked", "sum-mismatch"):
         # fuse the blocked tensor itself (product of sums), same trees for all operands
         ft = gen_trees(rng, range(rank), rng.choice((1, 1, 2)))
         tg = pick_target(rng, depth_of(ft))
+        if zsec:
+            # the first blocked leg is HARD-fused with a neighbour (optionally one level deeper): history p(..s(..)..)
+            for _ in range(30):
+                if any(isinstance(T, tuple) and bpos[0] in leaves(T) for T in ft):
+                    break
+                ft = gen_trees(rng, range(rank), rng.choice((1, 1, 2)))
+            else:
+                ft = [tuple(range(rank))]
+            tg = ("all-p", None)
+            before = bA
         E.info["blocked_trees"] = repr(ft)
         E.info["target"] = list(tg)
         bA, bB, bC = (apply_recipe(x, ft, pick_route(rng, tg, depth_of(ft)), rng) for x in (bA, bB, bC))
@@ -888,6 +996,17 @@ def case_block(E):
         hs = [l.history() for l in bA.get_legs()]
         if any(isinstance(T, tuple) and not h.startswith(kind_fn(tg)(T)) for T, h in zip(ft, hs)):
             ctx.violation("block:fused-history", f"fusing a blocked tensor by {ft} gives histories {hs}", E.sample("block"))
+        if zsec:
+            ig = next(i for i, T in enumerate(ft) if isinstance(T, tuple) and bpos[0] in leaves(T))
+            if sum_node_charges(bA.get_legs(ig)) != sum_node_charges(bB.get_legs(ig)):
+                ctx.count("block_sum_node_sector_mismatch")
+            # round trip of the product layers: back to the blocked (unfusable) tensor, same library basis -> bit-exact
+            r, flat = unfuse_all(ctx, bA, ft, rng)
+            ref = before.transpose(tuple(flat)) if len(flat) > 1 else before
+            if tuple(r.get_legs()) != tuple(ref.get_legs()) or not np.array_equal(r.to_numpy(), ref.to_numpy()):
+                ctx.violation("roundtrip:fused-blocked", f"unfuse(fuse(blocked tensor)) by {ft} differs from the blocked tensor (legs or elements)",
+                              E.sample("block"))
+            ctx.count("block_fused_roundtrips")
     if len(cur) > 1 and rng.random() < 0.5:
         q = list(range(len(cur)))
         rng.shuffle(q)
@@ -1269,7 +1388,8 @@ def floors(tier):
           "relation:equal": 300 * k, "relation:overlapping": 70 * k, "relation:disjoint": 150 * k,
           "op:add": 400 * k, "op:vdot": 400 * k, "op:tensordot": 280 * k, "op:trace": 280 * k, "embeddings_in_union_mismatched": 90 * k,
           "must_reject": 2000 * k, "rejected_with_YastnError": 2000 * k, "reject_controls_accepted": 200 * k,
-          "block_cases": 280 * k, "block_mismatched_ops": 140 * k, "op:block-trace": 50 * k,
+          "block_cases": 280 * k, "block_mismatched_ops": 140 * k, "op:block-trace": 30 * k, "op:block-fused-trace": 30 * k,
+          "block_sum_node_sector_mismatch": 50 * k, "block_fused_roundtrips": 60 * k, "add3_last_like_first": 50 * k,
           "lazy_operands": 5000 * k, "fused_lazily_transposed": 170 * k, "unfuse_multi_axes_on_lazy_tensor": 45 * k,
           "additions_with_common_pending_transpose": 240 * k, "pairs_fused_by_equivalent_routes": 140 * k,
           "leg_product_roundtrips": 700 * k, "depth:2": 200 * k, "depth:3": 25 * k, "rank:5": 100 * k, "reach_monitor_installed": 1}
